@@ -171,6 +171,10 @@ def check_fiber(case, rec, spec, req, active):
     if got.coords != [b for b, _, _ in want]:
         raise Violation("upper-coords", f"upper coordinates {got.coords}, expected partition starts "
                         f"{[b for b, _, _ in want]}; fiber={spec['tree']} active=({a0},{a1}) request={req}")
+    ua0, ua1 = got.getActive()
+    if any(not (ua0 <= b < ua1) for b in got.coords):
+        raise Violation("upper-active", f"upper coordinates {got.coords} lie outside the upper fiber's active range "
+                        f"({ua0}, {ua1}); parent active=({a0},{a1}) request={req}")
     for (b, (lo, hi), elems), lower in zip(want, got.payloads):
         if lower.coords != [c for c, _ in elems]:
             raise Violation("partition-elems", f"partition {b} holds coordinates {lower.coords}, expected "
@@ -226,6 +230,9 @@ def check(case, rec):
                 n2 = norm_req(req2, shape[0], len(lower.coords))
                 w2 = split_model(pres2, n2["kind"], n2["param"], lo, hi, n2["pre"], n2["post"], n2["relative"])
                 g2 = call_split(lower, req2, 0)
+                if any(not (g2.getActive()[0] <= bb < g2.getActive()[1]) for bb in g2.coords):
+                    raise Violation("upper-active", f"re-split of partition {b} (active {lo},{hi}): upper coordinates "
+                                    f"{g2.coords} outside the upper active range {g2.getActive()}; request={req2}")
                 if g2.coords != [bb for bb, _, _ in w2]:
                     raise Violation("resplit-upper", f"re-split of partition {b} (active {lo},{hi}) gives upper "
                                     f"coordinates {g2.coords}, expected {[bb for bb, _, _ in w2]}; request={req2}")
@@ -365,4 +372,19 @@ def _pin_p9b():
     return None
 
 
-PINNED = {"P9b-split-min-empty": _pin_p9b}
+def _pin_p24():
+    t = Tensor(rank_ids=["M", "K"], shape=[1, 2])
+    t.getPayloadRef(0, 1).__ilshift__(1)
+    s2 = t.splitUniform(1, depth=1).splitNonUniform([0], depth=2)
+    for f in s2.ranks[2].getFibers():
+        a0, a1 = f.getActive()
+        if any(not (a0 <= c < a1) for c in f.coords):
+            return f"re-split: upper fiber holds coordinates {f.coords} but has active range ({a0}, {a1})"
+    try:
+        s2.swizzleRanks(["M", "K.1", "K.0.0", "K.0.1"])
+    except ValueError as e:
+        return f"swizzleRanks of a re-split tensor raises ValueError: {e}"
+    return None
+
+
+PINNED = {"P9b-split-min-empty": _pin_p9b, "P24-split-upper-active-range": _pin_p24}
